@@ -1,6 +1,6 @@
 import core
 META = {
-    'id': 'C14', 'props_v': 'Props/C14.v', 'bin': 'c14', 'profile': 'dev', 'hooks': False, 'groups': ['RateLimit'],
+    'id': 'C14', 'props_v': 'Props/C14.v', 'bin': 'c14', 'profile': 'dev', 'hooks': True, 'groups': ['RateLimit'],
     'design_ref': 'DESIGN.md section 5, C14; design/C14.md',
     'technique': 'Coq proof (induction over arbitrary call sequences with arbitrary clock readings of Model/RateLimit.v: token bucket in exact scaled-integer arithmetic, fixed-window counter, LRU-keyed engine, three-level join limiter, prefix extraction) + constants regenerated from source + differential correspondence (vm_compute) against the real Engine / JoinRateLimiter / validation::RateLimiter under the real clock',
     'level_text': 'Theorems (Props/C14.v) for all configurations and all sequences of (clock reading, key/address) calls: admitted <= burst + max*elapsed/window from any reachable state; <= max inside one fixed window; a denied attempt leaves exactly the time-refilled bucket (unchanged at zero elapsed time) and never touches another key; per-key behaviour is the run of that key alone (isolation) as long as no more than MAX_RATE_LIMIT_KEYS distinct keys are in play; join limiter: per /64, /48, /24 and global bounds for every arrival sequence, the default numbers 1/5/3 per hour and 10 + 100/min; prefix extraction as bit arithmetic; bursts too short to earn one token decide exactly as with a frozen clock (the rule the correspondence check relies on); cumulative admissions are monotone in time. PARTIAL: time is an input of the model; the implementation is run under the real clock and compared through measured brackets.',
